@@ -183,6 +183,10 @@ func workC19(res *WorkerResult, start time.Time) {
 			continue
 		}
 		orig := map[string]int{"ops": len(c.Program)}
+		if os.Getenv("VERIF_KEEP_RAW") != "" && *flagReplayDir != "" {
+			os.MkdirAll(*flagReplayDir, 0755)
+			writeJSON(filepath.Join(*flagReplayDir, fmt.Sprintf("raw-C19-%d-%d.json", *flagSeed, run)), &ReplayFile{Property: "C19", Violation: v, Seed: *flagSeed, Run: run, Tags: *flagTags, C19: c})
+		}
 		mc, mv := minimiseC19(c, v, 400)
 		// replay check in-process: the minimised case must fail the same way twice
 		cc := &C19Case{Seed: mc.Seed, Config: mc.Config, Program: append([]Op(nil), mc.Program...)}
